@@ -951,6 +951,14 @@ func (vc *VC) ptrToTerm(p PtrVal) Term {
 	if len(p.Loc.Idx) == 1 && p.Loc.Prefix == canonicalPrefix(p.Elem) {
 		return p.Loc.Idx[0]
 	}
+	if len(p.Loc.Idx) == 1 {
+		// a pointer to a field of a struct: as a value it is an (unspecified) function of the field path and the enclosing
+		// object, nil exactly when the enclosing object is. Nothing else is known about it (it may or may not equal any
+		// other pointer), which is all a contract needs to say `s != nil` about a receiver that is a field of something.
+		name := quoteSym("iptr:" + p.Loc.Prefix)
+		vc.declareOnce("iptr:"+p.Loc.Prefix, fmt.Sprintf("(declare-fun %s (Int) Int)\n(assert (forall ((b! Int)) (! (= (= (%s b!) 0) (= b! 0)) :pattern ((%s b!)))))", name, name, name))
+		return app(SInt, name, p.Loc.Idx[0])
+	}
 	efail("interior pointer %s used as a first-class value (outside the supported subset)", p.Loc.Prefix)
 	return Term{}
 }
